@@ -373,7 +373,7 @@ def random_spec(rng, depth=2, allow_slow=False, allow_fh_required=True, positive
     return ["stack", {"reg": "ridge"}, [leaves[int(rng.integers(0, len(leaves)))] for _ in range(2)]]
 
 
-def make_series(rng, n, positive=True, off=0, kind="seasonal", index="range"):
+def make_series(rng, n, positive=True, off=0, kind="seasonal", index="range", integer=False):
     import pandas as pd
 
     t = np.arange(n)
@@ -386,4 +386,6 @@ def make_series(rng, n, positive=True, off=0, kind="seasonal", index="range"):
     if not positive:
         v = v - float(np.mean(v))
     idx = pd.RangeIndex(off, off + n) if index == "range" else pd.Index(np.arange(off, off + n))
+    if integer:
+        v = np.round(v).astype(np.int64)      # integer-typed series (counts)
     return pd.Series(v, index=idx)
